@@ -21,13 +21,15 @@ from fst.fst_trivia import get_trivia_params, leading_trivia, trailing_trivia
 PROPERTY = 'C04'
 THOROUGH_SCALE = 2.0
 
-ALPHA = ' \t#\\;x'     # blank, tab, comment start, continuation, separator, code
+ALPHA = ' \t#\\x'     # blank, tab, comment start, continuation, code
 
 
 def _line_from(cs):
+    """symbolic characters restricted to the classes the scanners distinguish (NOT pinned: the code under test and the reference split the cases)"""
     s = ''
     for c in cs:
-        s = s + ALPHA[pc.pin(c, 0, len(ALPHA) - 1)]
+        assume(c == 32 or c == 9 or c == 35 or c == 92 or c == 120)
+        s = s + chr(c)
     return s
 
 
@@ -45,19 +47,12 @@ def _kind(l):
     return 'code'
 
 
-def _mk_leading(nfree, width, mode):
+def _mk_leading(nfree, width, mode, ind, spv, bc):
     """nfree free lines above the element line, each `width` symbolic characters over ALPHA."""
-    def k1(c0: int, c1: int, c2: int, c3: int, c4: int, c5: int, ind: int, space: int, bcol: int):
+    def k1(c0: int, c1: int, c2: int, c3: int, c4: int, c5: int):
         cs = [c0, c1, c2, c3, c4, c5]
-        for c in cs[:nfree * width]:
-            assume(0 <= c < len(ALPHA))
         for c in cs[nfree * width:]:
             assume(c == 0)
-        assume(0 <= ind <= 2 and -1 <= space <= 3 and 0 <= bcol <= 1)
-        ind = pc.pin(ind, 0, 2)
-        sp = pc.pin(space, -1, 3)
-        spv = True if sp == -1 else False if sp == 0 else sp
-        bc = pc.pin(bcol, 0, 1)
         free = [_line_from(cs[i * width:(i + 1) * width]) for i in range(nfree)]
         lines = ['b;'] + free + [' ' * ind + 'x']           # line 0 holds the bound (other code ends at (0, bcol*2))
         ln = nfree + 1
@@ -107,22 +102,21 @@ def _mk_leading(nfree, width, mode):
     return k1
 
 
-def _mk_trailing(nfree, width, mode):
-    def k1(c0: int, c1: int, c2: int, c3: int, c4: int, c5: int, space: int, tailc: int):
+def _mk_trailing(nfree, width, mode, tail, spv):
+    def k1(c0: int, c1: int, c2: int, c3: int, c4: int, c5: int):
         cs = [c0, c1, c2, c3, c4, c5]
-        for c in cs[:nfree * width]:
-            assume(0 <= c < len(ALPHA))
         for c in cs[nfree * width:]:
             assume(c == 0)
-        assume(-1 <= space <= 3 and 0 <= tailc <= 3)
-        sp = pc.pin(space, -1, 3)
-        spv = True if sp == -1 else False if sp == 0 else sp
-        tail = ['', '  # c', ' ', ' \\'][pc.pin(tailc, 0, 3)]
         free = [_line_from(cs[i * width:(i + 1) * width]) for i in range(nfree)]
         lines = ['x' + tail] + free + ['y']            # element 'x' ends at (0, 1); the bound (next code) starts at (nfree+1, 0)
         bl = nfree + 1
         (tl, tc), spos, ends_line = trailing_trivia(lines, bl, 0, 0, 1, mode, spv)
         kinds = [_kind(l) for l in lines]
+        if tail == '  # c' and mode == 'none':
+            # a comment that is not taken follows on the element line: the element does not end its line (docstring)
+            check(ends_line is False and (tl, tc) == (0, 1), 'trailing.untaken_line_comment', (lines, (tl, tc), ends_line))
+            cover('not_eol')
+            return
         check(ends_line is True, 'trailing.ends_line_flag', (lines,))
         check((tl, tc) == (0, 1) or (tc == 0 and 1 <= tl <= bl), 'trailing.text_pos_out_of_bounds', (lines, (tl, tc)))
         last = 0 if (tl, tc) == (0, 1) else tl      # lines 1 .. last-1 were claimed as comments belonging to the element
@@ -321,16 +315,28 @@ def _mk_tok(cid, opname, k, trivia_false):
 FNT = ['fst.fst_trivia.leading_trivia', 'fst.fst_trivia.trailing_trivia', 'fst.fst_trivia.get_trivia_params', 'fst.common.next_frag']
 CELLS = []
 for _mode in ('none', 'block', 'all'):
-    for (_nf, _w) in ((2, 2), (3, 2), (2, 3)):
-        CELLS.append(Cell(f'K1.leading[{_mode},lines={_nf}x{_w}]', _mk_leading(_nf, _w, _mode), 'K', FNT[:1],
-                          f'{_nf} free lines of {_w} symbolic characters over {ALPHA!r} above an element indented 0..2; bound at (0,0) or (0,2); comments={_mode!r}; '
-                          'space in {True, False, 1, 2, 3}', tier='quick' if (_nf, _w) == (2, 2) else 'thorough', budget=900,
-                          out='integer line-number form of `comments`; more / longer lines; characters outside the listed classes (the regexes only distinguish these)'))
+    for (_nf, _w) in ((2, 2), (3, 2)):
+        for _ind in (0, 2):
+            for _spv in (True, False, 1, 2):
+                for _bc in (0, 1):
+                    _q = (_nf, _w) == (2, 2) and _spv in (True, 1) and _bc == 0 and (_ind == 2 or _spv is True)
+                    if (_nf, _w) != (2, 2) and (_bc == 1 or _spv == 2 or _ind == 0):
+                        continue
+                    CELLS.append(Cell(f'K1.leading[{_mode},lines={_nf}x{_w},indent={_ind},space={_spv},bound_col={_bc * 2}]',
+                                      _mk_leading(_nf, _w, _mode, _ind, _spv, _bc), 'K', FNT[:1],
+                                      f'{_nf} free lines of {_w} symbolic characters over the classes {ALPHA!r} above an element indented {_ind}; bound at (0,{_bc * 2}); '
+                                      f'comments={_mode!r}; space={_spv}', tier='quick' if _q else 'thorough', budget=600,
+                                      out='integer line-number form of `comments`; more / longer lines; characters outside the listed classes (the regexes only distinguish these)'))
 for _mode in ('none', 'line', 'block', 'all'):
     for (_nf, _w) in ((2, 2), (3, 2)):
-        CELLS.append(Cell(f'K1.trailing[{_mode},lines={_nf}x{_w}]', _mk_trailing(_nf, _w, _mode), 'K', FNT[1:2] + FNT[3:],
-                          f'element line "x" + one of 4 tails, {_nf} free lines of {_w} symbolic characters over {ALPHA!r}, then the bound; comments={_mode!r}; space in {{True, False, 1, 2, 3}}',
-                          tier='quick' if (_nf, _w) == (2, 2) else 'thorough', budget=900, out='bound on the element line; integer form of `comments`'))
+        for _tail in ('', '  # c', ' ', ' \\'):
+            for _spv in (True, False, 1, 2):
+                _q = (_nf, _w) == (2, 2) and _tail in ('', '  # c') and _spv in (True, 1) and _mode != 'line'
+                if (_nf, _w) != (2, 2) and (_spv == 2 or _tail == ' '):
+                    continue
+                CELLS.append(Cell(f'K1.trailing[{_mode},lines={_nf}x{_w},tail={_tail!r},space={_spv}]', _mk_trailing(_nf, _w, _mode, _tail, _spv), 'K', FNT[1:2] + FNT[3:],
+                                  f'element line "x"+{_tail!r}, {_nf} free lines of {_w} symbolic characters over the classes {ALPHA!r}, then the bound; comments={_mode!r}; space={_spv}',
+                                  tier='quick' if _q else 'thorough', budget=600, out='bound on the element line; integer form of `comments`'))
 CELLS.append(Cell('K2.get_trivia_params', k2_trivia_params, 'K', FNT[2:3],
                   '10 leading x 12 trailing option forms, the numbers in "+N"/"-N" symbolic 0..99, neg flag, scalar / 1-tuple / 2-tuple / empty tuple', budget=900))
 _QC = ('list4c', 'ifbody3', 'modbody', 'decos', 'handlers', 'cases', 'fromimp3', 'funcbody')
